@@ -221,7 +221,7 @@ DShift(s, f, len) ==      \* shld / shrd  o1, o2, count (o3: imm8 or cl)
       res == IF f.mn = "shld" THEN Or(Shl(a, c), Lshr(b, sz - c)) ELSE Or(Lshr(a, c), Shl(b, sz - c))
       ncf == IF f.mn = "shld" THEN a[sz - c + 1] ELSE a[c]
       F == Res(res, ncf, (Msb(res) + Msb(a)) % 2, 0)
-  IN IF c = 0 THEN P
+  IN IF c = 0 THEN WrOp(P, s, f.o1, sz, a)               \* as for the shifts: no flag changes, r32 destination zero-extended
      ELSE IF c > sz THEN [P EXCEPT !.fault = "UNDEF"]       \* 16-bit operand, count > 16: result and flags undefined
      ELSE WrOp(Undef(SetFl(P, F, FlagNames), {"af"} \cup (IF c # 1 THEN {"of"} ELSE {})), s, f.o1, sz, res)
 
